@@ -266,6 +266,8 @@ def rule_janus_grid_roundtrip(ctx):
 
 def run(ctx):
     rule_janus_grid_roundtrip(ctx)
+    from . import serial
+    serial.rule_scratch_reset(ctx, 'R10.9')   # a force evaluation is a function of the positions alone (bit-wise reversibility needs F(x) to be reproducible)
     from . import c03
     c03.rule_bracket_swap(ctx)            # R03.8: a backward Kepler step that falls back to bisection brackets the root (time-reversed runs retrace the forward ones)
     rule_components(ctx)
